@@ -115,12 +115,13 @@ def make_panel(rng, tier):
         Op('uvw', lambda p, x: p.uvw(x['c'], xs=x['xs'], ys=x['ys']), inputs=('c', 'xs', 'ys')),
         Op('strain', lambda p, x: p.strain(x['c'], xs=x['xs'], ys=x['ys'], NLterms=False), inputs=('c', 'xs', 'ys')),
         Op('stress', lambda p, x: p.stress(x['c'], xs=x['xs'], ys=x['ys'], NLterms=False), inputs=('c', 'xs', 'ys')),
+        Op('calc_kt_kr', lambda p, x: list(__import__('compmech.panel.connections', fromlist=['calc_kt_kr']).calc_kt_kr(p, p, 'xcte'))),
     ]
     return desc, factory, ops, ctx
 
 
 def make_assembly(rng, tier):
-    ad = gen.assembly_desc(rng, npan=int(rng.integers(2, 4)), mmax=4)
+    ad = gen.assembly_desc(rng, npan=int(rng.integers(2, 4)), mmax=4, offset_prob=0.5)
     for d in ad['panels']:
         d['flags'] = gen.flags(rng, 'ss')
     loads = [[float(-abs(rng.normal()) - 0.1), 0.0, 0.0] for _ in ad['panels']]
